@@ -30,7 +30,7 @@ func runC15(c *core.Ctx) core.Meta {
 	// R15.1 SEND-DISCIPLINE
 	RunProto(c, &ProtoCfg{
 		AllEffectsAfterSend: true,
-		RuleBase: "R15.1", Pkg: robPkg, FloorSends: 4,
+		RuleBase:            "R15.1", Pkg: robPkg, FloorSends: 4,
 		Effects: []Effect{
 			RetrieveEffect,
 			{Label: "list-insert", Consume: true, Match: func(n *core.Node) bool {
